@@ -999,6 +999,12 @@ def c18(work, tier, seed):
     def one(i):
         trace = work.path("det%d.ndjson" % i)
         vlib.run_harness(work, vh, ["determinism", "-seed", seed * 100 + i, "-n", 12 if quick else 160, "-out", trace], timeout=3300)
+        # the same cases once more in a second process, in reverse order: what a search returns must not depend
+        # on what the process searched before (caches keyed by less than the game state)
+        trace2 = work.path("det%d-reversed.ndjson" % i)
+        vlib.run_harness(work, vh, ["determinism", "-seed", seed * 100 + i, "-n", 12 if quick else 160, "-reversed", "-out", trace2], timeout=3300)
+        with open(trace, "a") as f:
+            f.write(open(trace2).read())
         r = vlib.validate_trace(work, "TraceDet", ["C18"], trace, timeout=3000, heap="4g")
         c = {}
         for line in open(trace):
@@ -1016,7 +1022,7 @@ def c18(work, tier, seed):
     rep.sample(vlib.read_line(results[0].trace, 1)[:900])
     vlib.absorb_trace_results(rep, results)
     require(rep, ["how:first", "how:after-unrelated-search", "how:repeat-same-engine", "how:new-engine", "how:other-hash-seed",
-                  "how:concurrent", "noise-on"], "C18")
+                  "how:concurrent", "how:other-process-reversed-order", "noise-on"], "C18")
     rep.assumptions = ["key = (engine, hash on/off, start FEN, move list, depth, noise amount and seed); with the hash table on the game is set up anew before every run (no table carried over)",
                        "the hash seed is NOT part of the key when noise is off: results must not depend on it",
                        "engines: morlock, TUROCHAMP, SARGON, BERNSTEIN as their main() builds them; four engines run concurrently in the concurrent phase"]
